@@ -28,6 +28,7 @@ type ReplayFn = fn(&serde_json::Value) -> Option<Violation>;
 
 fn table(id: &str) -> Option<(RunFn, ReplayFn)> {
     Some(match id {
+        "C17" => (props::c17::run_check, props::c17::replay),
         "C01" => (props::c01::run, props::c01::replay),
         "C02" => (props::c02::run_check, props::c02::replay),
         "C03" => (props::c03::run_check, props::c03::replay),
